@@ -151,6 +151,9 @@ class Ops(SeriesOps):
             return t
         if isinstance(v, Frame):
             return T.opaque("frame assigned to column")
+        # law: df[c] = [f(v) for v in df[a]]  ==  df[a].apply(f)  (a list is stored positionally; it was built from the rows of the same frame in row order)
+        if isinstance(v, tuple) and len(v) == 5 and v[0] == "comp" and v[1] == "list" and v[4] == T.TRUE and isinstance(v[3], tuple) and len(v[3]) == 3 and v[3][0] == "seriter" and v[3][2] == f.ctx():
+            return _strip_row(v[2])
         return to_term(v)
 
     def set_column(self, f: Frame, name: Any, v: Any, node) -> None:
